@@ -181,6 +181,12 @@ def case_list(nbase, step):
         # runs full, a surrogate pair is about to be split between two fills
         for k in (range(0, 48) if nbase <= 3 else range(0, 512)):
             cases.append(('deep', 'astral-text', style, k))
+        # the same in every other scanning context: comments, quoted, unquoted and triple-quoted strings, list
+        # elements, table keys
+        for k in (range(0, 64) if nbase <= 3 else range(0, 512)):
+            cases.append(('deep', 'astral-comment', style, k))
+        for k in (range(0, 16) if nbase <= 3 else range(0, 256)):
+            cases.append(('deep', 'astral-values', style, k))
     for start in ('\r', '\r\n', '\ufeff\r', '\ufeff\r\n', '\n', '\r\r\n', '\ufeff\n', ' \r\n'):
         for style in ('lf', 'crlf', 'cr'):
             cases.append(('start', start, style, 0))
@@ -266,6 +272,29 @@ def deep_document(kind, pad):
             out.append('ab\U0001f600' * (19 + j % 3) + ('x' if j % 5 == 0 else '') + '\n')
         out.append(';\n_after 1\n')
         items = 2
+    elif kind == 'astral-comment':
+        out.append('_before 0\n')
+        for j in range(3400):
+            out.append('#' + 'ab\U0001f600' * (19 + j % 3) + ('x' if j % 5 == 0 else '') + '\n')
+        out.append('_after 1\n')
+        items = 2
+    elif kind == 'astral-values':
+        for j in range(3400):
+            body = 'ab\U0001f600' * (18 + j % 3) + ('x' if j % 5 == 0 else '')
+            form = j % 6
+            if form == 0:
+                out.append("_q%04d '%s'\n" % (j, body))
+            elif form == 1:
+                out.append('_u%04d %s\n' % (j, body))
+            elif form == 2:
+                out.append('_t%04d \"\"\"%s\n%s\"\"\"\n' % (j, body[:30], body[30:]))
+            elif form == 3:
+                out.append('_l%04d [%s "%s"]\n' % (j, body[:31], body[31:]))
+            elif form == 4:
+                out.append("_k%04d {'%s':%s}\n" % (j, body[:40], body[40:]))
+            else:
+                out.append('_n%04d%s %d\n' % (j, body[:45], j))
+            items += 1
     else:
         for j in range(417):
             out.append("_L%03d '%s'\n" % (j, ('%03d ' % j) + 'v' * 606))
